@@ -11,7 +11,7 @@ from .core import Sub, Outcome, target
 PID = 'C04'
 SHARDS = {'quick': 8, 'thorough': 16}
 RULE = ('Base systems from the C01 generator (1-3 types, all closures / potentials / omega models incl. diblock tables) x a transformation T: '
-        '(a) permutation + renaming of the type list, (b) split of a single-site species into two labelled species at ratio f in '
+        '(a) permutation of the type list, keeping the names (declared order no longer sorted) or renaming (new names not alphabetical), (b) split of a single-site species into two labelled species at ratio f in '
         '(0.05,0.95) with NoIntra cross term, or of an even FJC N-mer (explicit pair-sum table) into the two halves of the symmetric '
         'diblock with exact block tables, (c) scaling kT and every energy parameter incl. high_value by s in [0.05,20]. The relations '
         'are decided where they hold identically: (cost) cost_T(T x) = T cost(x) for generated symmetric smooth x of amplitude 1e-3..2 '
@@ -24,7 +24,7 @@ ASSUMPTIONS = ['two independent solves are never compared: the discretised equat
                'x is symmetric in the pair indices (cost() reads gamma of the (i<=j) entry only)',
                'cases with cond(I-Omega C) > 1e6 at some k are counted and skipped (rounding amplification)']
 EPS = np.finfo(float).eps
-NEW_NAMES = ['P', 'Q', 'R', 'S']
+NEW_NAMES = ['Q', 'P', 'S', 'R']
 
 
 # ----------------------------------------------------------------------------- transformations (pure functions on specs)
@@ -43,8 +43,12 @@ def remap(spec, idx_map, names):
     return out
 
 
-def permute(spec, perm):
-    return remap(spec, list(perm), NEW_NAMES), list(perm)
+def permute(spec, perm, rename=True):
+    """re-order the type list; rename=False keeps each species' own name (so the declared list is no longer in sorted order),
+    rename=True gives new names (deliberately not in alphabetical order either)"""
+    if rename:
+        return remap(spec, list(perm), NEW_NAMES), list(perm)
+    return remap(spec, list(perm), [spec['types'][i] for i in perm]), list(perm)
 
 
 def split_monatomic(spec, a, f):
@@ -100,8 +104,9 @@ def transform(case):
         else:
             import itertools
             perms = [p for p in itertools.permutations(range(n)) if list(p) != list(range(n))]
-            new, idx = permute(base, perms[case['pick'] % len(perms)])
-            return base, new, idx, 1.0, 'perm'
+            rename = (case['pick'] // len(perms)) % 2 == 0
+            new, idx = permute(base, perms[case['pick'] % len(perms)], rename)
+            return base, new, idx, 1.0, 'perm-renamed' if rename else 'perm-reordered'
     if kind in ('diblock', 'split'):
         # a species can only be split if it is a molecule of its own: drop block-copolymer wiring from the base
         for (i, j) in S.pair_indices(n):
